@@ -840,8 +840,42 @@ def ws_split(line):
     return body[:i] if core else "", core, body[i + len(core):] if core else body, term
 
 
+def fixed_lines_probe(res, fails):
+    """lines that look like secrets but are not of a form netconan decodes (characters outside the `$9$` alphabet, single-quoted values
+    behind a word that ends in `key`), and sensitive words with characters that are special in patterns: each line gives one line, the
+    line after it is still written, and tokens that contain no listed word are unchanged"""
+    from netconan.anonymize_files import FileAnonymizer
+    odd = ['secret "$9$ab_cdefgh";', 'secret "$9$ab_cdefghijklmnop"', 'secret "$9$abécdefgh"', 'secret "$9$\u0663bcdefgh1"', 'secret "$9$abcdefgh\u00aa"',
+           "authentication-key \"$9$__________\";", " wep-key 'abc def'", "set security tsig-key 'x y';", "key 'x'", " ike-key 'q'", "pre-shared-key 'a b c'",
+           " wep-key \"abc def\"", "license-key ''", "api-key ' '", "set key '\"'"]
+    words = ["acme.net", "a+b", "x(y", "co$t", "q[1]", "w|z", "back\\slash", "st*r", "h?t", "c^t"]
+    tok_lines = ["peer acme-net acmeXnet acme_net acmenet aab ab xy cot q1 w z wz backslash str sr ht hot ct c.t end",
+                 "description acme/net a.b x{y co-t q[2] st-r h.t"]
+    try:
+        obj = FileAnonymizer(anon_pwd=True, anon_ip=True, salt="fx", sensitive_words=list(words))
+    except Exception as e:  # noqa
+        fails.append({"kind": "constructor raised on a valid option set", "sensitive_words": words, "exc": repr(e)[:200]})
+        return
+    for ln in odd + tok_lines:
+        o = io.StringIO()
+        res.evaluations += 1
+        try:
+            obj.anonymize_io(io.StringIO(ln + "\nend of the probe\n"), o)
+        except Exception as e:  # noqa
+            fails.append({"kind": "processing a line raised %s (the lines after it are lost)" % type(e).__name__, "features": "passwords, addresses, words",
+                          "sensitive_words": words, "line": ln, "exc": repr(e)[:200], "output_so_far": o.getvalue()})
+            continue
+        out = o.getvalue().split("\n")
+        if len(out) != 3 or out[1] != "end of the probe":
+            fails.append({"kind": "one line in did not give one line out, or the following line changed", "line": ln, "output": o.getvalue()})
+        elif ln in tok_lines and out[0] != ln:
+            fails.append({"kind": "a token that contains no listed sensitive word was changed (the listed words contain characters that are special in patterns)",
+                          "sensitive_words": words, "line": ln, "output": out[0]})
+
+
 def structure_scope(res, pid, rng, tier):
     fails = []
+    fixed_lines_probe(res, fails)
     rounds = 24 if tier == "thorough" else 10
     for r in range(rounds):
         subset = [bool((r >> k) & 1) for k in range(4)]
@@ -1079,6 +1113,7 @@ def total_scope(res, pid, rng, tier):
     from netconan.anonymize_files import anonymize_files
     fails = []
     n = 2500 if tier == "thorough" else 700
+    fixed_lines_probe(res, fails)
     salts = SALTS + ["\\", "$", "a" * 100, "٣"]
     cfgs = []
     for r in range(16):
